@@ -30,7 +30,17 @@ def cfgs_for(rng, n):
     extra = [c for c in cooc_cfg.wide_cfgs(3, rng.randrange(1 << 20), 40) if not any(w["table"] for w in c["wins"])]
     for c in extra:
         c["nullify"] = rng.random() < 0.6
-    return (out + extra)[:n]
+    # the list is cut to n: mix the kinds first so that every kernel / orientation / multi-window kind survives the cut
+    rng.shuffle(out)
+    mixed = []
+    while out or extra:
+        if out:
+            mixed.append(out.pop())
+        if extra and len(mixed) % 3 == 2:
+            mixed.append(extra.pop())
+        elif not out and extra:
+            mixed.append(extra.pop())
+    return mixed[:n]
 
 
 def judge(ctx, items, res, part):
